@@ -1,6 +1,7 @@
 import Swat4.Lemmas.Crypt
 import Swat4.Lemmas.CryptChecked
 import Swat4.Gen.Facts
+import Swat4.Lemmas.RecoverRnd
 /-!
 # C02 — Encrypted replies are decryptable by the stock GameSpy client cipher
 
@@ -153,3 +154,68 @@ end Swat4.C02
 
 /-- non-vacuity: the SWAT4 secret `tG3j8c` satisfies the hypothesis of `C02_main` -/
 example : ∀ b ∈ (⟨#[0x74, 0x47, 0x33, 0x6a, 0x38, 0x63], rfl⟩ : Swat4.Crypt.Secret).toList, b ≠ 0 := by decide
+
+/-! # Additions (review round 3): the driver's reconstruction of the random draws
+
+The C02 (and C01) driver cannot observe the 23 `RandInt` draws of the real `crypt.Encrypt`; it recovers them from the reply
+(`Drv.C02.recoverRnd`, defined only in the driver) and runs the model with the recovered vector.  The theorems say that this
+loses nothing.  Proofs in `Lemmas/RecoverRnd.lean`. -/
+namespace Swat4.C02
+open Swat4 Swat4.Crypt
+
+/-- **the reconstruction is justified.**  If `out` is the output of `Encrypt` for the (unknown) draws `rnd`, then the vector
+the driver reconstructs from `out` has the right length, equals `recovered secret chal rnd` — which is `rnd` at each of the
+19 positions that reach the output (`recoverRnd_agrees`) — and the model run with it returns exactly `out`. -/
+theorem recoverRnd_encrypt (secret : Secret) (chal : Challenge) (rnd : Rnd) (plain out : Bytes)
+    (h : encrypt? secret chal rnd plain = some out) :
+    Drv.toVec? 23 (Drv.C02.recoverRnd secret.toList chal.toList out) = some (recovered secret chal rnd) ∧
+    encrypt? secret chal (recovered secret chal rnd) plain = some out :=
+  Crypt.recoverRnd_encrypt secret chal rnd plain out h
+
+/-- the reconstructed vector is the real one wherever `Encrypt` does not overwrite the header (positions 0, 1, 2, 8 are
+overwritten; the draws there never reach the output) -/
+theorem recoverRnd_agrees (secret : Secret) (chal : Challenge) (rnd : Rnd) (i : Nat) (h : i < 23)
+    (h0 : i ≠ 0) (h1 : i ≠ 1) (h2 : i ≠ 2) (h8 : i ≠ 8) : (recovered secret chal rnd)[i] = rnd[i] :=
+  Crypt.recovered_agrees secret chal rnd i h h0 h1 h2 h8
+
+/-- … as the driver's `enc` arm uses it: secret and challenge as byte strings passing the length checks -/
+theorem recoverRnd_encrypt_bytes (s c : Bytes) (sv : Secret) (cv : Challenge) (rv : Rnd) (plain out : Bytes)
+    (hs : Drv.toVec? 6 s = some sv) (hc : Drv.toVec? 8 c = some cv) (h : encrypt? sv cv rv plain = some out) :
+    ∃ rv' : Rnd, Drv.toVec? 23 (Drv.C02.recoverRnd s c out) = some rv' ∧ encrypt? sv cv rv' plain = some out ∧
+      ∀ (i : Nat) (hi : i < 23), i ≠ 0 → i ≠ 1 → i ≠ 2 → i ≠ 8 → rv'[i] = rv[i] :=
+  Crypt.recoverRnd_encrypt_bytes s c sv cv rv plain out hs hc h
+
+/-- **`recoverRnd (encrypt? … rnd …) = rnd`** for well-formed draws: right length (by type) and the canonical values at the
+four positions the output does not depend on -/
+theorem recoverRnd_encrypt_exact (secret : Secret) (chal : Challenge) (rnd : Rnd) (plain out : Bytes)
+    (h0 : rnd[0] = (0xeb : UInt8) ^^^ secret[0] ^^^ chal[0]) (h1 : rnd[1] = (0x00 : UInt8) ^^^ secret[1] ^^^ chal[1])
+    (h2 : rnd[2] = (0x00 : UInt8) ^^^ secret[2] ^^^ chal[2])
+    (h8 : rnd[8] = ((14 : UInt8) ^^^ (0xea : UInt8)) ^^^ secret[2] ^^^ chal[0])
+    (h : encrypt? secret chal rnd plain = some out) :
+    Drv.toVec? 23 (Drv.C02.recoverRnd secret.toList chal.toList out) = some rnd :=
+  Crypt.recoverRnd_encrypt_exact secret chal rnd plain out h0 h1 h2 h8 h
+
+/-- the unrestricted equation is **false**, and harmlessly so: the draw at position 0 (likewise 1, 2, 8) does not reach the
+output, so it cannot be recovered — and need not be -/
+theorem recoverRnd_dead_position (secret : Secret) (chal : Challenge) (rnd : Rnd) (x : UInt8) (plain : Bytes) :
+    encrypt? secret chal (rnd.set 0 x) plain = encrypt? secret chal rnd plain :=
+  Crypt.recoverRnd_not_injective secret chal rnd x plain
+
+/-- non-vacuity: for the SWAT4 secret, a concrete challenge and all-zero draws the model produces a reply (the hypothesis
+of `recoverRnd_encrypt` holds), the reconstruction differs from the real draws at position 0 only in the dead positions,
+and the model run with it gives the same reply -/
+example :
+    let cv : Challenge := ⟨#[1, 2, 3, 4, 5, 6, 7, 8], rfl⟩
+    let rv : Rnd := Vector.replicate 23 0
+    (encrypt? gameSecret cv rv [0x41]).isSome = true ∧ recovered gameSecret cv rv ≠ rv ∧
+    encrypt? gameSecret cv (recovered gameSecret cv rv) [0x41] = encrypt? gameSecret cv rv [0x41] := by
+  refine ⟨encrypt_total _ _ _ _, by decide, Crypt.encrypt?_recovered _ _ _ _⟩
+
+/-- … and draws satisfying the four hypotheses of `recoverRnd_encrypt_exact` exist: `recovered … rnd` itself -/
+example (secret : Secret) (chal : Challenge) (rnd : Rnd) :
+    let r := recovered secret chal rnd
+    r[0] = (0xeb : UInt8) ^^^ secret[0] ^^^ chal[0] ∧ r[1] = (0x00 : UInt8) ^^^ secret[1] ^^^ chal[1] ∧
+    r[2] = (0x00 : UInt8) ^^^ secret[2] ^^^ chal[2] ∧ r[8] = ((14 : UInt8) ^^^ (0xea : UInt8)) ^^^ secret[2] ^^^ chal[0] :=
+  ⟨rfl, rfl, rfl, rfl⟩
+
+end Swat4.C02
